@@ -11166,8 +11166,14 @@ where
 			&& self.pending_splice.is_none()
 			&& self.funding.channel_transaction_parameters.splice_parent_funding_txid.is_none()
 		{
-			// We should never have to worry about MonitorUpdateInProgress resending ChannelReady
-			self.get_channel_ready(logger)
+			if self.context.monitor_pending_channel_ready {
+				// We have yet to send our first `channel_ready`: it is being held until the pending
+				// `ChannelMonitor` persistence completes (the funding confirmed, and possibly our
+				// peer's `channel_ready` arrived, in the meantime) and will be sent then.
+				None
+			} else {
+				self.get_channel_ready(logger)
+			}
 		} else { None };
 
 		// A receiving node:
